@@ -4,7 +4,7 @@
    holds, meshes, names) is proved for the model of the code, for every size; the DFT itself
    (scipy's) is an abstract transform over any commutative ring with a root of unity w
    (hypotheses: w^n = 1 and sum_k w^(d k) = 0 for 0 < d < n). *)
-From DF Require Import Prelude Constants_gen Region Mesh Fft C11_shift C11_kmesh C11_names C11_dft C11_dftn C11_arrange C11_shape.
+From DF Require Import Prelude Constants_gen Region Mesh Fft C11_shift C11_kmesh C11_names C11_dft C11_dftn C11_arrange C11_shape C11_mesh.
 From Coq Require Import ZArithRing.
 Open Scope Q_scope.
 
@@ -247,6 +247,25 @@ Theorem C11_real_half_nd : forall (V : Type) (d : V) (ns : list Z) (bins : list 
       (indices_c (kshape true ns)).
 Proof. exact @real_half_nd. Qed.
 Print Assumptions C11_real_half_nd.
+
+(* ---------------------------------------------------------------- Mesh.fftn, all axes *)
+(* on every well-formed mesh Mesh.fftn succeeds; counts = n (last: n//2+1 for the real kind),
+   reciprocal names and units, and along every axis the k-region is exactly the k-axis
+   [kaxis (rfft && last) n cell] whose cell centres C11_kcentres / _real / _single_cell locate
+   (p1 < p2 on every axis, so min/max leave them in place) *)
+Theorem C11_mesh_fftn : forall (m : mesh) (rfft : bool), wf_mesh m ->
+  let ax := axes rfft (last_flags (length (n m))) (n m) (cell m) in
+  exists km, mesh_fftn m rfft = OK km /\
+    n km = kshape rfft (n m) /\
+    dims (reg km) = map kdim (dims (reg m)) /\ units (reg km) = map kunit (units (reg m)) /\
+    pmin (reg km) = map2 Qmin (map fst3 ax) (map snd3 ax) /\
+    pmax (reg km) = map2 Qmax (map fst3 ax) (map snd3 ax) /\
+    Forall2 Qlt (map fst3 ax) (map snd3 ax) /\ length ax = length (n m).
+Proof. exact mesh_fftn_ok. Qed.
+Print Assumptions C11_mesh_fftn.
+Example C11_mesh_fftn_nonvacuous :
+  wf_mesh (mkMesh (mkRegion [0; 0] [4; 3] ["x"%string; "y"%string] ["m"%string; "m"%string] (1 # 1000)) [4%Z; 3%Z] "" []).
+Proof. exact wf_mesh_nonvacuous. Qed.
 
 (* ---------------------------------------------------------------- shape validation *)
 (* an explicit shape is accepted iff it has the mesh's length, equals the counts on all axes but
